@@ -54,7 +54,7 @@ Modelled rather than verified:
 * the path from a TOML file to the JSON object handed to `StateModel::try_from` (the `config` crate):
   the model starts at that JSON object, in declaration order; that the application delivers it in
   declaration order is evidenced by the `tomlstate` stream of the harness only (it did not before
-  /repo 2bb3a85: finding `state/config-order`, repaired);
+  /repo 4baa6be: finding `state/config-order`, repaired);
 * `f64` rounding, the `as` casts (class `IntCodec`, instantiated by Lean's `Float` in the driver) and
   decimal float lexemes (numbers cross the protocol as bit patterns).
 
